@@ -1,9 +1,9 @@
 (* C01 - Transpilation preserves the action of the circuit.
    The template definitions come from QPG.templates, regenerated from /repo on every run. *)
-From Coq Require Import List Bool Reals Lia String.
+From Coq Require Import List Bool Reals Lia String ZArith.
 From QP Require Import Cx Apply Gates Rsem.
-From QPM Require Import Transpile Period Native.
-From QPG Require Import templates fusers native nativegen.
+From QPM Require Import Transpile Period Native Pauli PauliRot.
+From QPG Require Import templates fusers native nativegen snaps.
 From QP Require Import Local.
 Import ListNotations.
 
@@ -175,6 +175,47 @@ Print Assumptions ionq_native_preserves_measurement_statistics.
 Example ionq_accepts_some :
   exists out ph', ionq_pass ionq_rows (fun _ => 0%R) [mkC KRZ [1%nat] [1%R]; mkC KI [0%nat] []] = Some (out, ph').
 Proof. cbn. unfold ionq_step. cbn. eexists. eexists. reflexivity. Qed.
+
+
+(* ------------------------------------------------------------------ Pauli-string decomposers (multi_pauli_decomposer.py) *)
+(* PauliRotationDecomposeTranspiler.decompose (hand model PauliRot.prot_decompose, run against the code by vm_compute): for a
+   Pauli string P of ANY length on distinct qubits and every angle, the returned H / RX(+-pi/2) / CNOT-ladder / RZ gates
+   implement exp(-i theta/2 P) up to a global phase *)
+Theorem pauli_rotation_decomposition_is_the_rotation :
+  forall l theta, l <> [] -> NoDup (keys l) -> csem (map rsem (prot_decompose l theta)) ≃ prot theta l.
+Proof. exact pauli_rotation_decomposition_sound. Qed.
+Print Assumptions pauli_rotation_decomposition_is_the_rotation.
+
+(* PauliDecomposeTranspiler.decompose: a Pauli gate is the list of its one-qubit factors *)
+Theorem pauli_gate_decomposition_is_the_pauli_string :
+  forall l, csem (map rsem (map to_c (pauli_decompose_g (P := R) l))) ≃ lsemL l.
+Proof. exact pauli_gate_decomposition_sound. Qed.
+
+(* ------------------------------------------------------------------ rotation snapping (RX/RY/RZ2NamedTranspiler, ZeroRotationElimination) *)
+(* every branch `theta mod 2 pi close to K` of the regenerated if-chains returns named gates that implement the rotation at
+   every angle congruent to K (the test |theta - K| < epsilon idealised to theta = K) *)
+Definition snap_row_ok (r : string * gkind * Z * list gate) : bool :=
+  let '(_, k, p, body) := r in
+  is_rot k && tmpl_check [0%nat] body (mkG k [0%nat] [ang_pi4 p]) && forallb gate_ok body && gate_ok (mkG k [0%nat] [ang_pi4 p]).
+
+Theorem snap_rows_ok : forallb snap_row_ok snap_rows = true.
+Proof. vm_compute. reflexivity. Qed.
+
+Theorem snapped_rotation_is_the_named_gates :
+  forall c k p body, In (c, k, p, body) snap_rows ->
+  forall (q : nat) (n : Z),
+  csem (map (fun g => rsem (inst (fun _ => 0%R) (fun i => (q + i)%nat) g)) body)
+  ≃ lsem (rsem (mkC k [q] [(IZR p * (PI / 4) + 2 * PI * IZR n)%R])).
+Proof.
+  intros c k p body Hin q n.
+  pose proof snap_rows_ok as H. rewrite forallb_forall in H. specialize (H _ Hin). cbn in H.
+  apply andb_true_iff in H as [H H3]. apply andb_true_iff in H as [H H2]. apply andb_true_iff in H as [Hk H1].
+  eapply opequiv_trans; [|apply opequiv_sym, (rotation_angle_period k q _ n Hk)].
+  pose proof (tmpl_sound (fun _ => 0%R) (fun i => (q + i)%nat) ltac:(intros a b E; cbv beta in E; lia) [0%nat] _ _ H1 H2 H3) as T.
+  replace (inst (fun _ : nat => 0%R) (fun i : nat => (q + i)%nat) (mkG k [0%nat] [ang_pi4 p])) with (mkC k [q] [(IZR p * (PI / 4))%R]) in T; [exact T|].
+  unfold inst. cbn. rewrite Nat.add_0_r. f_equal. f_equal. unfold ang_eval, ang_pi4. cbn. ring.
+Qed.
+Print Assumptions snapped_rotation_is_the_named_gates.
 
 (* non-vacuity: the theorem's hypotheses are met by a concrete circuit *)
 (* NormalizeRotationTranspiler: shifting the angle of RX / RY / RZ by any integer multiple of 2 pi - in particular
